@@ -48,6 +48,9 @@ class ElectronicControlUnit:
 
         # List of timer events the job thread should care of
         self._timer_events = []
+        # held by the job thread while it serves one timer event and by remove_timer: once remove_timer has
+        # returned the callback is not called any more, also when it is called from another thread
+        self._timer_lock = threading.RLock()
         # serialises the address claim state machines of the CAs of this ECU between the job thread
         # (claim timer) and the thread that feeds received frames in
         self._address_claim_lock = threading.RLock()
@@ -98,9 +101,10 @@ class ElectronicControlUnit:
             The callback to be removed from the timer event list
         """
         # iterate over a copy: removing from the list that is being iterated skips entries
-        for event in list(self._timer_events):
-            if event['callback'] == callback:
-                self._timer_events.remove( event )
+        with self._timer_lock:
+            for event in list(self._timer_events):
+                if event['callback'] == callback:
+                    self._timer_events.remove( event )
         self._job_thread_wakeup()
 
     def connect(self, *args, **kwargs):
@@ -316,27 +320,28 @@ class ElectronicControlUnit:
             # check timer events
             # iterate over a copy: callbacks and other threads add and remove entries meanwhile
             for event in list(self._timer_events):
-                if not any(e is event for e in self._timer_events):
-                    # removed in the meantime (e.g. by a callback served earlier in this pass)
-                    continue
-                if event['deadline'] > now:
-                    if next_wakeup > event['deadline']:
-                        next_wakeup = event['deadline']
-                else:
-                    # deadline reached
-                    logger.debug("Deadline for event reached")
-                    if event['callback']( event['cookie'] ) == True:
-                        # "true" means the callback wants to be called again
-                        while event['deadline'] <= now:
-                            # just to take care of overruns (a deadline equal to 'now' has been served as well)
-                            event['deadline'] += event['delta_time']
-                        # recalc next wakeup
+                with self._timer_lock:
+                    if not any(e is event for e in self._timer_events):
+                        # removed in the meantime (e.g. by a callback served earlier in this pass)
+                        continue
+                    if event['deadline'] > now:
                         if next_wakeup > event['deadline']:
                             next_wakeup = event['deadline']
                     else:
-                        # remove from list (the callback may have removed itself already)
-                        if event in self._timer_events:
-                            self._timer_events.remove( event )
+                        # deadline reached
+                        logger.debug("Deadline for event reached")
+                        if event['callback']( event['cookie'] ) == True:
+                            # "true" means the callback wants to be called again
+                            while event['deadline'] <= now:
+                                # just to take care of overruns (a deadline equal to 'now' has been served as well)
+                                event['deadline'] += event['delta_time']
+                            # recalc next wakeup
+                            if next_wakeup > event['deadline']:
+                                next_wakeup = event['deadline']
+                        else:
+                            # remove from list (the callback may have removed itself already)
+                            if event in self._timer_events:
+                                self._timer_events.remove( event )
 
             time_to_sleep = next_wakeup - time.time()
             if time_to_sleep > 0:
